@@ -32,7 +32,7 @@ Ariths == {"1h / 0s", "10m % 0s", "1h / 1m", "1h % 7m", "0s / 0s", "1s * 1s", "1
 BinOps == {"+", "-", "*", "/", "%", "&", "|", "^", "=", "!=", "<", "<=", ">", ">=", "AND", "OR"}
 BinArgs == <<"v", "'s'", "1", "0", "1.5", "0.0", "true", "10s", "0s", "now()", "9223372036854775808", "'2000-01-01T00:00:00Z'", "time">>
 
-Dims == {"", "h", "*", "/re/", "time()", "time(0s)", "time(-1s)", "time(1s)", "time(1s, 0s)", "time(0s, 1s)", "time(1s, 1s, 1s)", "time(v)", "time('x')", "time(1s, now())",
+Dims == {"", "h", "*", "/re/", "time()", "time(0s)", "time(-1s)", "time(1s)", "time(1s, 0s)", "time(0s, 1s)", "time(1s, 1s, 1s)", "time(v)", "time('x')", "time(1s, now())", "time(0s, now())", "time(0s, now() - 90s)", "time(0s, '2000-01-01T00:00:00Z')", "time(7s, now() - 90s)", "time(1s, now() + 1s)",
          "time(1s, '2000-01-01T00:00:00Z')", "time(1s, 'x')", "time(1s, 1)", "time(1, 1s)", "time(1.5)", "time(10s / 0.5)", "foo(1)", "foo()", "1", "'x'", "time(1s), time(2s)",
          "h, time(1s, -1s)", "time(1ns, 9223372036854775807ns)", "mean(v)", "h::tag, *", "time(1s), *", "v + 1", "(h)", "DISTINCT h", "-h", "true"}
 
@@ -79,6 +79,12 @@ Gen == /\ ~done
                  /\ Emit(Sel("v", "/a/ " \o o \o " " \o BinArgs[j], "", ""), "bare-regex-where")
                  /\ Emit(Sel("/a/ " \o o \o " " \o BinArgs[j], "", "", ""), "bare-regex-field")
                  /\ Emit(Sel("mean(/a/) " \o o \o " " \o BinArgs[j], "", "time(1m)", ""), "regex-call-op")
+          ELSE IF Part = "sources"
+          \* several sources, of which the first / last is unknown to the schema (no field or tag maps at all) or a regex
+          THEN \A src \in {"nosuch", "nosuch, m", "m, nosuch", "/re/, m", "m, /re/", "nosuch, (SELECT max(v) FROM m GROUP BY h)", "(SELECT v FROM nosuch), m",
+                            "nosuch, nosuch", "db.rp.nosuch, m", "(SELECT * FROM nosuch, m)", "m, (SELECT mean(*) FROM nosuch, m GROUP BY *)"} :
+                 \A f \in {"*", "v", "mean(*)", "*::tag, v", "/v/", "top(v, h, 2)", "count(/./)"} : \A d \in {"", "*", "h", "/h/, time(1m)"} :
+                   Emit("SELECT " \o f \o " FROM " \o src \o (IF d = "" THEN "" ELSE " GROUP BY " \o d), "sources")
           ELSE IF Part = "dims"
           THEN \A d \in Dims : \A f \in {"v", "mean(v)", "top(v, 1), h", "*"} : \A tl \in Tails : Emit(Sel(f, "", d, tl), "dim")
           ELSE IF Part = "conds"
